@@ -49,23 +49,45 @@ class RefRefusal(Exception):
 
 
 # ---- thermophysical data through the high-level interface ------------------------------------------------------
+import collections
+
+#: an adsorbate without thermodynamic backend, described by the constants its user supplied (the documented fallback of
+#: the library): saturation pressure [Pa], molar mass [g/mol], liquid / vapour molar density [mol/cm3]
+UserFluid = collections.namedtuple("UserFluid", "p_sat molar_mass rho_liq_molar rho_vap_molar")
+
+
+def user_fluid_properties(uf):
+    """The property dictionary of the library's Adsorbate for a UserFluid (mass densities consistent with the molar ones)."""
+    return {"saturation_pressure": uf.p_sat, "molar_mass": uf.molar_mass,
+            "liquid_molar_density": uf.rho_liq_molar, "gas_molar_density": uf.rho_vap_molar,
+            "liquid_density": uf.rho_liq_molar * uf.molar_mass, "gas_density": uf.rho_vap_molar * uf.molar_mass}
+
+
 @functools.lru_cache(maxsize=100000)
 def p_sat(fluid, T):
+    if isinstance(fluid, UserFluid):
+        return fluid.p_sat
     return PropsSI("P", "T", float(T), "Q", 0, fluid)
 
 
 @functools.lru_cache(maxsize=100000)
 def molar_mass(fluid):
+    if isinstance(fluid, UserFluid):
+        return fluid.molar_mass
     return PropsSI("M", fluid) * 1000.0  # g/mol
 
 
 @functools.lru_cache(maxsize=100000)
 def rho_liq_molar(fluid, T):
+    if isinstance(fluid, UserFluid):
+        return fluid.rho_liq_molar
     return PropsSI("Dmolar", "T", float(T), "Q", 0, fluid) / 1e6  # mol/cm3
 
 
 @functools.lru_cache(maxsize=100000)
 def rho_vap_molar(fluid, T):
+    if isinstance(fluid, UserFluid):
+        return fluid.rho_vap_molar
     return PropsSI("Dmolar", "T", float(T), "Q", 1, fluid) / 1e6  # mol/cm3
 
 
